@@ -316,7 +316,8 @@ class Tr:
         if base == "flatten" and not is_ns:
             return self.e(n.func.value)
         if is_ns and base == "clip":
-            self.dropped.append("clip(x, eps, 1-eps) is the identity under the side condition eps <= x <= 1-eps")
+            srcs = [ast.unparse(a) for a in n.args] + [f"{k.arg}={ast.unparse(k.value)}" for k in n.keywords]
+            self.dropped.append("clip(" + ", ".join(srcs) + ") taken as the identity under the side condition that its argument lies between the two bounds")
             return args[0]
         # calls to other repo functions: inlined by translating the callee
         callee = None
